@@ -7,6 +7,7 @@ finite domain (field width 1..32) x (cache fill level) x (octets left in the
 buffer, 0..5); cache contents and values are symbolic."""
 from upv import facts, absint
 from upv.absint import SYM, Machine, Finding, Undecided, explore
+from upv.facts import strip_all_casts
 from upv.report import Report, HOLDS, VIOLATED, UNDECIDED, OOS
 
 PROP = 'C18'
@@ -253,6 +254,58 @@ def check_stream(rep, repo, tier):
     rep.tables['R-stream'] = {'abstract_runs': nruns, 'segmentations': len(segl), 'plans': len(plans)}
 
 
+
+INOUT_SIZE = {'ubuf_block_read': 2, 'ubuf_block_write': 2, 'uref_block_read': 2, 'uref_block_write': 2}
+
+
+def check_inout_size(rep, prog):
+    """ubuf_block_read / _write take the wanted size in *size_p and overwrite it with the size of the chunk they mapped:
+    a caller that loops over the segments of a block gives the variable its wanted value again before every call"""
+    from upv import pathrules as pr
+    from upv.facts import is_assign, strip
+    rep.rule('R-inout-size', 'every call of ubuf_block_read / ubuf_block_write (and the uref wrappers) that passes the address of a local variable as the '
+             'in/out size: the same call is not reached again (loop) without the variable having been assigned or re-declared in between - otherwise the '
+             'second chunk is requested with the size of the first one instead of what remains, and octets beyond the window asked for are read or written '
+             '(here: ubuf_block_extract_bits feeding the bit writer, the bit-stream refills, every block walker of the headers)')
+    n = 0
+    units = [prog.hdr] + list(prog.units.values())
+    for u in units:
+        for fn in sorted(u.funcs.values(), key=lambda f: f.name):
+            if not fn.blocks:
+                continue
+            calls = [x for _, _, x in fn.nodes() if x.get('k') == 'call' and x.get('fn') in INOUT_SIZE]
+            if not calls:
+                continue
+            ev = pr.Events(fn)
+            for k, c in enumerate(calls):
+                a = strip_all_casts(fn.resolve(c['args'][INOUT_SIZE[c['fn']]]))
+                if not (isinstance(a, dict) and a.get('k') == 'un' and a.get('op') == '&'):
+                    continue
+                v = strip_all_casts(a['e'])
+                if not (isinstance(v, dict) and v.get('k') == 'ref'):
+                    continue
+                name = v['n']
+                me = (lambda c_: (lambda n_: n_ is c_))(c)
+
+                def reset(n_, name=name):
+                    if is_assign(n_):
+                        l = strip(n_['lhs'])
+                        return isinstance(l, dict) and l.get('k') == 'ref' and l.get('n') == name
+                    if n_.get('k') == 'decl':
+                        return any(vv['n'] == name for vv in n_.get('vars', []))
+                    return False
+                pos = ev.find(me)
+                if not pos:
+                    continue
+                n += 1
+                hits, _ = ev.reach((pos[0][0], pos[0][1]), me, reset)
+                rep.add('R-inout-size', '%s:%s#%d:%s' % (fn.name, c['fn'], k, name), VIOLATED if hits else HOLDS, '%s:%s' % (fn.file, c.get('l')),
+                        **({'what': '%s calls %s(&%s) again (loop) without giving %s its wanted value back: the call has overwritten it with the size of the '
+                                    'chunk it mapped' % (fn.name, c['fn'], name, name)} if hits else {}))
+    if n < 8:
+        raise facts.AnalysisBroken('R-inout-size found only %d call sites' % n)
+
+
 def run(tier='quick', repo=None):
     repo = repo or facts.REPO
     rep = Report(PROP, tier)
@@ -342,6 +395,7 @@ def run(tier='quick', repo=None):
     rep.tables['abstract_runs'] = stats
     check_inverse(rep, prog, tier)
     check_stream(rep, repo, tier)
+    check_inout_size(rep, prog)
     rep.tables['invariants'] = {'ubits write mode': 'available in [1,32]', 'ubits read mode': 'available in [0,8]', 'ubuf_block_stream': 'available in [0,32]'}
     rep.assumptions = ['callers respect assert(nb && nb <= 32) (the asserted pre-condition bounds the domain)',
                        'buffers longer than 5 octets behave like 5 for the bounds checks of these functions (each call consumes at most 5 octets)']
